@@ -22,6 +22,16 @@ MIXED = ['a + b.inv()', 'b.inv() + a', 'a - b.inv()', 'b.inv() - a', 'a + a / b'
          'a + b ** -1', '1 + a ** -1', 'a ** -1 + 1', '(a | b) + (b * a) / b.normsq() + 2', 'a * b.inv() + b', '(a + b.inv()) * a']
 
 
+# reciprocals of single coefficients (of either sign) multiplied with something: on the symbolic route these are quotients of
+# single monomials in kingdon's RationalPolynomial (the common-factor branch of its product)
+RECIP = ['a * (a | a).e ** -1', 'b * (a * a).e ** -1', '(a * b).e ** -1 * a', 'a * (b | b).e ** -3', '(a | a).e ** -1 * (a + b)',
+         'a * ((-a) | b).e ** -1', '(2 * a) * (a * (-3 * b)).e ** -1']
+# plain numbers as operands, several in one function: pairs whose python hashes coincide (-1/-2, 0/2**61-1), equal values of
+# different types, and ordinary pairs
+CONST_PAIRS = [(-1, -2), (-2, -1), (0, 2305843009213693951), (1, 1.0), (2, 3), (-1, 1), (-1.0, -2), (0.5, 2)]
+CONST_FORMS = ['({c1} * a) + ({c2} * b)', '({c1} * a) * (b + {c2})', '(a * {c1}) - (b - {c2})', '({c1} - a) ^ ({c2} + b)', '({c1} * a) | ({c2} * a)']
+
+
 class Gen:
     def __init__(self, rng, nargs, alg, exact=True):
         self.rng, self.nargs, self.alg, self.exact = rng, nargs, alg, exact
@@ -51,7 +61,7 @@ class Gen:
             form = self.rng.choice(['args', 'tuple'])
             return f'{self.expr(depth - 1)}.grade({", ".join(map(str, gs))})' if form == 'args' else f'{self.expr(depth - 1)}.grade(({", ".join(map(str, gs))},))'
         if r < 0.93:
-            n = self.rng.choice([2, 3, -2, 5])
+            n = self.rng.choice([2, 3, -2, 5, -1, 0])
             form = self.rng.choice(['n*x', 'x*n', 'n+x', 'x+n', 'x-n', 'n-x', 'n^x', 'x^n'])
             x = self.expr(depth - 1)
             return {'n*x': f'({n} * {x})', 'x*n': f'({x} * {n})', 'n+x': f'({n} + {x})', 'x+n': f'({x} + {n})', 'x-n': f'({x} - {n})',
@@ -171,11 +181,34 @@ def same_name_pass(ctx):
                 break
 
 
+def constants_history_pass(ctx):
+    """registered functions that differ only in a plain-number operand, traced one after the other on one algebra, then called
+    again in the other order: each keeps computing with its own number (pairs of numbers with equal python hash included)"""
+    for c1, c2 in CONST_PAIRS:
+        alg = make_algebra([1, 1, 1])
+        f1 = make_func(f'{c1} * a + (a ^ ({c2 if False else c1} + a))', 'with_first', 1)
+        f2 = make_func(f'{c2} * a + (a ^ ({c2} + a))', 'with_second', 1)
+        r1, r2 = alg.register(f1), alg.register(f2)
+        x = alg.multivector(e1=Fraction(3), e12=Fraction(5))
+        for i, (nm, reg, plain) in enumerate([('with_first', r1, f1), ('with_second', r2, f2), ('with_first', r1, f1), ('with_second', r2, f2)]):
+            case = {'scenario': 'registered functions differing in a number', 'numbers': [c1, c2], 'call': nm, 'call_index': i}
+            ctx.case(case, tag='constants-history')
+            got, exp = result_of(reg, [x]), result_of(plain, [x])
+            if got[0] == 'ok' and exp[0] == 'ok' and not close(got[1], exp[1]) or got[0] != exp[0]:
+                ctx.violation('registered-differs', case, str(exp)[:200], str(got)[:200], key='registered:differs:constants-history')
+                break
+
+
 def construct_class(src):
     """which construct of the surface is involved (for telling findings apart)"""
     import re
     if re.search(r'\.e[0-9a-f]*\b(?!\()', src):
-        return 'coefficient-access'
+        # a coefficient (possibly raised to an integer power) as the LEFT operand of an operator whose right operand is not a
+        # plain number: the construct of F17 (RationalPolynomial's operator receives the multivector); a coefficient used
+        # anywhere else is a different construct
+        if re.search(r'\.e[0-9a-f]*\b(?!\()( \*\* -?\d+)?\)* (\*|\+|-|/|\^|\||&|>>|@) (?!-?\d)', src):
+            return 'coefficient-access'
+        return 'coefficient-value'
     if any(m in src for m in ('.norm()', '.normalized()', '.sqrt()', '** 0.5')):
         return 'sqrt'
     return 'other'
@@ -201,6 +234,9 @@ def run(ctx):
         # coefficient access by spellings of every parity and norms that are not scalars need operands that actually contain
         # those blades: structured first operands (dense, even part, bivector block, scalar + pseudoscalar)
         sources += [(s, 2, 'structured') for s in exhaustive_depth1() if ('.e' in s and len(s.split('.e')[1].split()[0]) >= 3) or 'norm' in s] * 3
+        for k in alg.canon2bin.values():
+            sources += [(s_, 2, ('single', k)) for s_ in (RECIP if not ctx.quick else rng.sample(RECIP, 3))]
+        sources += [(form.format(c1=c1, c2=c2), 2, 'same') for c1, c2 in CONST_PAIRS for form in (CONST_FORMS if not ctx.quick else rng.sample(CONST_FORMS, 2))]
         ntree = 150 if ctx.quick else 1000
         for _ in range(ntree):
             nargs = rng.choice([1, 2, 2, 3])
@@ -216,6 +252,7 @@ def run(ctx):
             src, nargs = item[0], item[1]
             same = len(item) > 2 and item[2] == 'same'
             structured = len(item) > 2 and item[2] == 'structured'
+            single = item[2][1] if len(item) > 2 and isinstance(item[2], tuple) else None
             fid[0] += 1
             name = f'f{fid[0]}'
             extra_direct = {'inner_fn': inner}
@@ -232,6 +269,8 @@ def run(ctx):
             if same:
                 base = rng.choice([[1, 2], [0, 3], [1, 2, 4][:d], [0, 1]])
                 pats = [list(base) for _ in pats]
+            if single is not None:
+                pats = [[single] for _ in pats]
             if structured:
                 g2 = [k for k in full if bin(k).count('1') == 2]
                 pats[0] = rng.choice([full, [k for k in full if bin(k).count('1') % 2 == 0], g2, [0, 2 ** d - 1], [2 ** d - 1, 1, 2]])
@@ -247,7 +286,7 @@ def run(ctx):
             supported = is_supported(src)
             routes = [('registered', lambda: alg.register(f_for_reg))]
             heavy = src.count('>>') + src.count('@') + src.count('.inv()') + src.count('/') + src.count('**') + src.count('.sw(') + src.count('.proj(') + src.count('.div(')
-            if ((heavy <= 1 and len(src) < 60) or same) and not (structured and len(pats[0]) > 8):
+            if ((heavy <= 1 and len(src) < 60) or same or single is not None) and not (structured and len(pats[0]) > 8):
                 routes.append(('registered-symbolic', lambda: alg.register(symbolic=True)(f_for_sym)))
             for rname, mk in routes:
                 ctx.case({**case, 'route': rname}, tag=rname + (':supported' if supported else ':other'))
@@ -272,5 +311,6 @@ def run(ctx):
                 elif got[0] == 'ok-other':
                     ctx.violation('registered-type', {**case, 'route': rname}, 'a multivector', got[1], key=f'{rname}:type')
     same_name_pass(ctx)
+    constants_history_pass(ctx)
     ctx.assumptions = ['lambdas cannot be registered (their __name__ is not an identifier): generated functions are named',
                        'the symbolic route goes through sympy simplification and is exercised on small expressions only']
